@@ -5,6 +5,8 @@ import (
 	"fmt"
 	"sort"
 	"strings"
+	"sync"
+	"sync/atomic"
 
 	"github.com/influxdata/influxql"
 
@@ -193,12 +195,31 @@ func c15build(c *xplore.Ctx, pws []string) c15case {
 	return out
 }
 
+// c15marker is whatever Sanitize puts in place of a password literal. The property does not fix its spelling, only
+// that nothing else changes and that no fragment of the password remains; it is read off the simplest statement.
+var c15markerOnce sync.Once
+var c15markerText = "[REDACTED]"
+
+func c15marker() string {
+	c15markerOnce.Do(func() {
+		const pre = "CREATE USER u0 WITH PASSWORD "
+		func() {
+			defer func() { recover() }()
+			got := influxql.Sanitize(pre + "'zq'")
+			if strings.HasPrefix(got, pre) && !strings.ContainsAny(got[len(pre):], "zq'") {
+				c15markerText = got[len(pre):]
+			}
+		}()
+	})
+	return c15markerText
+}
+
 func c15expected(cs c15case) string {
 	var b strings.Builder
 	last := 0
 	for _, sp := range cs.spans {
 		b.WriteString(cs.text[last:sp[0]])
-		b.WriteString("[REDACTED]")
+		b.WriteString(c15marker())
 		last = sp[1]
 	}
 	b.WriteString(cs.text[last:])
@@ -223,7 +244,7 @@ func c15check(cs c15case, vec []int, rank int) (fs []ev.Finding, accepted bool) 
 			continue
 		}
 		printed := st.String()
-		leaked := !strings.Contains(printed, "[REDACTED]")
+		leaked := false
 		for _, m := range []string{"z", "q"} {
 			if strings.Contains(pw, m) && strings.Contains(printed, m) {
 				leaked = true
@@ -294,11 +315,127 @@ var c15unchanged = []string{
 	"GRANT ALL ON \"password\" TO \"with\"", "SELECT a FROM m WHERE pw = 'password for x = y'",
 }
 
+// ---- spellings the parser rejects today -------------------------------------------------------
+//
+// Sanitize keeps its own idea of where a password literal ends. If the scanner or the parser come to accept another
+// spelling of the clause (a doubled quote as an escape, a single-quoted user name, ...), Sanitize must follow. The
+// texts below are rejected by the parser as it is, so they count for nothing on this tree; whenever one of them is
+// accepted, the password token is located with the real scanner (extents from the hook) and Sanitize must have
+// replaced exactly that token.
+
+var c15nmUsers = []string{"u0", `"u 0"`, "'u0'", `"a""b"`, "'a''b'", `u0"x"`, "`u0`", "u0.x", "$u", "u0 u1", "(u0)", "u0,u1", "-u0", "u0::tag", `"u0"'x'`}
+var c15nmPws = []string{"'zq'", "'z''q'", `'z'"q"`, `"zq"`, "'zq'q", "'z' 'q'", "'z'/* c */'q'", "zq", "`zq`", "$zq", "'z'.'q'", "'z'+'q'", "('zq')", "'z\\'q'", "'zq", "'z';'q'", "N'zq'", "'z'\n'q'", "'z'--\n'q'", "=='zq'"}
+
+func c15nearMissTexts() []string {
+	var out []string
+	for _, u := range c15nmUsers {
+		for _, p := range c15nmPws {
+			out = append(out, "SET PASSWORD FOR "+u+" = "+p, "SET PASSWORD FOR "+u+"="+p, "CREATE USER "+u+" WITH PASSWORD "+p, "CREATE USER "+u+" WITH PASSWORD "+p+" WITH ALL PRIVILEGES",
+				"SET PASSWORD FOR "+u+" = "+p+"; SELECT a FROM m")
+		}
+	}
+	return out
+}
+
+// c15nearMiss returns findings and whether the parser accepted the text as a password statement.
+func c15nearMiss(text string) (fs []ev.Finding, accepted bool) {
+	q, err := influxql.ParseQuery(text)
+	if err != nil || strings.ContainsAny(text, "\r\x00") {
+		return nil, false
+	}
+	isPw := false
+	for _, st := range q.Statements {
+		switch s := st.(type) {
+		case *influxql.CreateUserStatement, *influxql.SetPasswordUserStatement:
+			isPw = true
+			if printed := s.String(); strings.ContainsAny(printed, "zq") {
+				fs = append(fs, ev.Finding{Sig: "string-leaks-password:" + fmt.Sprintf("%T", st), Witness: text, Detail: "String() = " + printed, Case: map[string]string{"near_miss": text}, Rank: len(text)})
+			}
+		}
+	}
+	if !isPw {
+		return nil, false
+	}
+	// locate the password tokens with the scanner under test
+	type tk struct {
+		tok           influxql.Token
+		lit           string
+		before, after int
+	}
+	var toks []tk
+	sc := influxql.NewScanner(strings.NewReader(text))
+	for i := 0; i < len(text)+2; i++ {
+		b := sc.VerifConsumed()
+		t, _, lit := sc.Scan()
+		toks = append(toks, tk{t, lit, b, sc.VerifConsumed()})
+		if t == influxql.EOF {
+			break
+		}
+	}
+	var off []int // byte offset of every rune
+	for i := range text {
+		off = append(off, i)
+	}
+	off = append(off, len(text))
+	var spans [][2]int
+	state := 0 // 1: after PASSWORD in CREATE USER (literal follows); 2: after PASSWORD FOR (literal follows the '=')
+	for i, t := range toks {
+		switch {
+		case t.tok == influxql.WS || t.tok == influxql.COMMENT:
+		case t.tok == influxql.PASSWORD:
+			state = 1
+			for j := i + 1; j < len(toks); j++ {
+				if toks[j].tok == influxql.WS || toks[j].tok == influxql.COMMENT {
+					continue
+				}
+				if toks[j].tok == influxql.FOR {
+					state = 2
+				}
+				break
+			}
+		case t.tok == influxql.SEMICOLON:
+			state = 0
+		case state == 1 && t.tok != influxql.PASSWORD:
+			spans = append(spans, [2]int{off[t.before], off[t.after]})
+			state = 0
+		case state == 2 && t.tok == influxql.EQ:
+			state = 1
+		}
+	}
+	var b strings.Builder
+	last := 0
+	for _, sp := range spans {
+		b.WriteString(text[last:sp[0]])
+		b.WriteString(c15marker())
+		last = sp[1]
+	}
+	b.WriteString(text[last:])
+	want := b.String()
+	var got string
+	if p, st := try(func() { got = influxql.Sanitize(text) }); p != nil {
+		return append(fs, ev.Finding{Sig: "panic:Sanitize", Witness: text, Detail: fmt.Sprint(p) + st, Case: map[string]string{"near_miss": text}, Rank: len(text)}), true
+	}
+	if got != want {
+		sig := "sanitize:newly-accepted-spelling-not-redacted"
+		if !strings.ContainsAny(got, "zq") {
+			sig = "sanitize:newly-accepted-spelling-wrong-span"
+		}
+		fs = append(fs, ev.Finding{Sig: sig, Witness: text, Detail: fmt.Sprintf("the parser accepts this spelling; the scanner puts the password at bytes %v; Sanitize = %q, want %q", spans, got, want), Case: map[string]string{"near_miss": text}, Rank: len(text)})
+	}
+	return fs, true
+}
+
 func init() {
 	register(&Check{ID: "C15", Run: c15run, Replay: func(raw json.RawMessage) []ev.Finding {
 		var probe map[string]json.RawMessage
 		if json.Unmarshal(raw, &probe) != nil {
 			return nil
+		}
+		if _, ok := probe["near_miss"]; ok {
+			var m map[string]string
+			json.Unmarshal(raw, &m)
+			f, _ := c15nearMiss(m["near_miss"])
+			return f
 		}
 		if _, ok := probe["text"]; ok {
 			var m map[string]string
@@ -409,10 +546,27 @@ func c15run(r *ev.Run) {
 			r.Report(f)
 		}
 	}
+	var nmAccepted int64
+	nm := c15nearMissTexts()
+	parallelFor(len(nm), func(i int) {
+		fs, ok := c15nearMiss(nm[i])
+		if !ok {
+			return
+		}
+		atomic.AddInt64(&nmAccepted, 1)
+		n := r.Eval()
+		r.State(astx.HashString("N|"+nm[i]), true)
+		r.Sample(n, func() interface{} { return nm[i] })
+		for _, f := range fs {
+			r.Report(f)
+		}
+	})
+	r.Set("near_miss_spellings_tried", len(nm))
+	r.Set("near_miss_spellings_accepted_by_the_parser", atomic.LoadInt64(&nmAccepted))
 	r.Set("passwords", len(pws))
 	r.Set("password_alphabet", len(c15pwAlpha))
 	r.Set("user_names", len(c15users))
 	r.Set("texts_rejected_by_parser_not_counted", rejected)
 	r.Set("passes_maxlen_and_bounds_struct_spell_value", fmt.Sprint(passes))
-	r.Rule = fmt.Sprintf("both password statement kinds x every password of length <=%d over a %d-symbol alphabet (marker letters z,q that occur nowhere else, space, both quotes, backslash, =, ;, tab, newline) [full product] x user names x layouts (keyword case, every gap from {none where legal, space, two spaces, tab, LF, CRLF, block comment, line comment}) x context (alone, before/after another statement, two password statements, no space after ;) within the deviation bounds; only texts the parser accepts are counted. Oracle: Sanitize(text) == text with exactly the password literal spans replaced; String() has [REDACTED] and no marker. Plus every non-password statement of the grammar model within 1 deviation and hand-picked texts containing the words: must come back unchanged.", maxLen, len(c15pwAlpha))
+	r.Rule = fmt.Sprintf("both password statement kinds x every password of length <=%d over a %d-symbol alphabet (marker letters z,q that occur nowhere else, space, both quotes, backslash, =, ;, tab, newline) [full product] x user names x layouts (keyword case, every gap from {none where legal, space, two spaces, tab, LF, CRLF, block comment, line comment}) x context (alone, before/after another statement, two password statements, no space after ;) within the deviation bounds; only texts the parser accepts are counted. Oracle: Sanitize(text) == text with exactly the password literal spans replaced; String() contains no marker letter of the password (the replacement text itself is read off the simplest statement, not assumed). Plus every non-password statement of the grammar model within 1 deviation and hand-picked texts containing the words: must come back unchanged. Plus a family of spellings of the clause that the parser rejects today (doubled quotes, single-quoted user names, ...): whenever one is accepted, the password token is located with the scanner under test and Sanitize must have replaced exactly it.", maxLen, len(c15pwAlpha))
 }
